@@ -10,6 +10,7 @@ from typing import Any
 from .minieval import Evaluator, Host, Raised, Refused, Sym, UserFunc
 from .model import Repo
 from .util import norm
+from .foldpool import disk_cached
 
 
 class Opaque:
@@ -21,7 +22,9 @@ class Opaque:
 
 def fold_make_array(repo: Repo) -> dict | None:
     fi = repo.func("cstruct.py", "cstruct._make_array")
-    expr = Sym("expr")
+    # an expression whose identifiers happen to be resolvable without a context (a constant of the same name as an earlier field): the array
+    # factory must not take that value - the parser already decided that this size is only known while reading
+    expr = Sym("expr", {"expression": "count", "tokens": ["count"]}, {"evaluate": Host(lambda context=None: 3)})
     expression_cls = Sym("Expression")
     out: dict = {"cases": 0, "size_bad": [], "nt_bad": [], "align_bad": [], "attrs_bad": [], "name_bad": []}
     elem_kinds = {
@@ -222,6 +225,7 @@ class _Stream:
         return Sym("stream", {}, {"read": Host(read), "write": Host(write), "tell": Host(lambda: self.pos), "seek": Host(seek)})
 
 
+@disk_cached('leb128', ('types/leb128.py',))
 def fold_leb128(repo: Repo) -> dict | None:
     """LEB128._write / _read folded over ~700 values for both signednesses against the reference (S)LEB128 encoding."""
     from .minieval import Exhausted
@@ -457,6 +461,7 @@ def fold_meta_call(repo: Repo) -> dict | None:
     return out
 
 
+@disk_cached('unaryminus', ('expression.py',))
 def fold_mark_unary_minus(repo: Repo, max_len: int = 5) -> dict | None:
     """Expression._mark_unary_minus over *every* token list up to ``max_len`` over a 7-token alphabet (bounded-exhaustive): a '-' is unary exactly
     when it starts the list or follows '(' or an operator - where a '-' that was itself just marked unary counts as an operator."""
@@ -555,6 +560,7 @@ def _ref_struct_layout(kinds: list[dict], align: bool):
     return offset, alignment, offs
 
 
+@disk_cached('layout', ('types/structure.py',))
 def fold_struct_layout(repo: Repo, max_len: int = 2) -> dict | None:
     """StructureMetaType._calculate_size_and_offsets and UnionMetaType._calculate_size_and_offsets interpreted on every sequence of up to ``max_len``
     field kinds (plus a fixed set of longer ones), packed and aligned, against the reference layout."""
@@ -1394,6 +1400,7 @@ def fold_add_type(repo: Repo) -> dict | None:
         return None
 
 
+@disk_cached('updatefields', ('types/structure.py',))
 def fold_update_fields(repo: Repo) -> dict | None:
     """StructureMetaType._update_fields over (kind of class, compiled?, field list): the class dict it returns holds every derived attribute,
     computed from the *new* field list; the reader is recompiled only after the offsets were calculated, with the class's alignment mode, and a
